@@ -85,8 +85,8 @@ type zzFeeEstimator struct{ rate atomic.Int64 }
 func (f *zzFeeEstimator) EstimateFeePerKW(uint32) (chainfee.SatPerKWeight, error) {
 	return chainfee.SatPerKWeight(f.rate.Load()), nil
 }
-func (f *zzFeeEstimator) Start() error                         { return nil }
-func (f *zzFeeEstimator) Stop() error                          { return nil }
+func (f *zzFeeEstimator) Start() error                          { return nil }
+func (f *zzFeeEstimator) Stop() error                           { return nil }
 func (f *zzFeeEstimator) RelayFeePerKW() chainfee.SatPerKWeight { return 253 }
 
 // zzClock is the wall clock of the invoice registries. Under the bubble's fake
@@ -569,10 +569,10 @@ func (n *zzNode) addLink(conn int) error {
 	boot := n.boots
 	//nolint:ll
 	link := NewChannelLink(ChannelLinkConfig{
-		BestHeight:         sw.BestHeight,
-		FwrdingPolicy:      s.cfg.policy,
-		Peer:               zl.peer,
-		Circuits:           sw.CircuitModifier(),
+		BestHeight:    sw.BestHeight,
+		FwrdingPolicy: s.cfg.policy,
+		Peer:          zl.peer,
+		Circuits:      sw.CircuitModifier(),
 		ForwardPackets: func(linkQuit <-chan struct{}, _ bool, packets ...*htlcPacket) error {
 			return sw.ForwardPackets(linkQuit, packets...)
 		},
